@@ -3,6 +3,8 @@ package main
 // Intercepted functions: harness intrinsics (vf*), environment stubs.
 
 import (
+	"net"
+	"strconv"
 	"fmt"
 	"math/big"
 	"go/token"
@@ -150,7 +152,7 @@ func init() {
 
 		"time.Now":              func(fr *frame, fn *ssa.Function, a []value) value { return zero(fn.Signature.Results().At(0).Type()) },
 		"(time.Time).UnixNano":  func(fr *frame, fn *ssa.Function, a []value) value { fr.in.clock++; return int64(1_700_000_000_000_000_000 + fr.in.clock) },
-		"time.Sleep":            func(fr *frame, fn *ssa.Function, a []value) value { fr.in.sleep(fr.g); return nil },
+		"time.Sleep":            func(fr *frame, fn *ssa.Function, a []value) value { fr.in.sleep(fr.g, fr.in.asInt64(a[0])); return nil },
 		"github.com/google/uuid.New": func(fr *frame, fn *ssa.Function, a []value) value { return zero(fn.Signature.Results().At(0).Type()) },
 		"(github.com/google/uuid.UUID).String": func(fr *frame, fn *ssa.Function, a []value) value {
 			// a fresh identifier: a constant of the Str sort outside every block symbolic strings range over
@@ -300,16 +302,73 @@ func init() {
 			}
 			return nil
 		},
+		// math/rand: the permutation is a symbolic choice (Fisher-Yates with one fresh input per step), so that
+		// "for every shuffle" is part of the query; the generator objects themselves are never consulted.
+		"math/rand.Shuffle": func(fr *frame, fn *ssa.Function, a []value) value {
+			in := fr.in
+			n := int(in.asInt64(a[0]))
+			for i := n - 1; i > 0; i-- {
+				j := i
+				if s, ok := in.concreteInput("rand.shuffle"); ok {
+					v, _ := strconv.Atoi(s)
+					j = v
+				} else {
+					v := in.newInput("rand.shuffle", "int", bvSort(64))
+					in.assumeTerm(in.ts.BVOp("bvsle", in.ts.BV(0, 64), v))
+					in.assumeTerm(in.ts.BVOp("bvsle", v, in.ts.BV(uint64(i), 64)))
+					for k := 0; k < i; k++ {
+						if in.decide(in.ts.Eq(v, in.ts.BV(uint64(k), 64))) {
+							j = k
+							break
+						}
+					}
+				}
+				in.call(fr, 0, a[1], []value{i, j})
+			}
+			return nil
+		},
+		// net.IP.String depends on net/netip's package state (not initialised in the engine): host-side for concrete bytes
+		"(net.IP).String": func(fr *frame, fn *ssa.Function, a []value) value {
+			xs, _ := a[0].([]value)
+			b := make([]byte, len(xs))
+			for i, x := range xs {
+				u, ok := x.(uint8)
+				if !ok {
+					fr.in.unsupported("net.IP.String on symbolic bytes")
+				}
+				b[i] = u
+			}
+			return net.IP(b).String()
+		},
+		"math/rand.New":       func(fr *frame, fn *ssa.Function, a []value) value { return (*value)(nil) },
+		"math/rand.NewSource": func(fr *frame, fn *ssa.Function, a []value) value { return iface{} },
 		"sort.Strings": func(fr *frame, fn *ssa.Function, a []value) value {
 			xs := a[0].([]value)
 			for i := 1; i < len(xs); i++ {
 				for j := i; j > 0; j-- {
 					x, ok1 := xs[j].(string)
 					y, ok2 := xs[j-1].(string)
-					if !ok1 || !ok2 {
-						fr.in.unsupported("sort.Strings of symbolic strings")
+					lt := false
+					if ok1 && ok2 {
+						lt = x < y
+					} else {
+						// The Str sort has equality only.  The lexical order of a symbolic string relative to another
+						// string is a free Boolean, fixed per pair of terms for the whole path ("for every name,
+						// wherever it sorts"); equal strings are never "less".
+						in := fr.in
+						tx, ty := in.toTerm(xs[j]), in.toTerm(xs[j-1])
+						if in.decide(in.ts.Eq(tx, ty)) {
+							lt = false
+						} else {
+							a, b, flip := tx, ty, false
+							if in.ts.Show(a) > in.ts.Show(b) {
+								a, b, flip = b, a, true
+							}
+							v := in.ts.Var("strlt|"+in.ts.Show(a)+"|"+in.ts.Show(b), sortBool)
+							lt = in.decide(v) != flip
+						}
 					}
-					if !(x < y) {
+					if !lt {
 						break
 					}
 					xs[j], xs[j-1] = xs[j-1], xs[j]
